@@ -70,6 +70,12 @@ CLAIMED = {
              'Tie: exhaustive tiny sets + random sets with duplicate keys/labels, the recorded difflib ratios instantiate the variable; the hypotheses on ratio are themselves checked against difflib in Coq on exact rationals.',
         note=NOTE + 'difflib.SequenceMatcher.ratio satisfies the stated hypotheses (checked per run; positivity symmetry only below difflib\'s autojunk threshold of 200 items).', design='6 (C19)',
         technique='Coq proof with section hypotheses on difflib + differential correspondence + oracle'),
+    'C06': dict(
+        text='PARTIAL. coq/props/C06.v proves the deterministic half for all maps with neighbouring labels > 2*delta apart, all windows, both strands, any seed within delta of the true diagonal: '
+             'the pairing returns exactly the true pairs each with |offset| = |seed - true| <= delta and only unpaired reference labels around them, the factory returns one segment holding all pairs, the row lists the true pairs '
+             'and its HitEnum is nM (default parameters satisfy the side conditions for every n >= 2); bin centre within half a resolution. NOT provable in this family: that FFT cross-correlation + scipy.find_peaks put a seed within delta of the '
+             'true diagonal and that this candidate wins (floating point, plateau dependent) — that hypothesis is MEASURED by the end-to-end oracle on planted queries in all four modes (exact pairs, strand, nM, |queryShift| <= 200 from the captured winning candidate).',
+        note=NOTE + 'numpy/scipy seeding numerics are outside the model; multi-peak winning candidates are measured only.', design='6 (C06), 10.4', technique='Coq proof of the conditional core + measured seeding hypothesis (end-to-end planted queries) + pipeline correspondence'),
 }
 PENDING_REASON = 'check not built yet in this round (planned: DESIGN.md section 6); will be claimed once its model, theorems and correspondence run'
 
